@@ -123,6 +123,11 @@ func (r *c13Refcount) run() {
 		if _, ok := conn.(ice.AddrPortReaderWriter); ok && hs[i].useAP {
 			c.Probe("handle-reads-via-addrport")
 		}
+		if t.Bias(1, 3, "future-read-deadline") {
+			// a user that bounds its reads: every read of this handle carries a deadline far in the future
+			_ = conn.SetReadDeadline(time.Now().Add(time.Hour))
+			c.Fault("handle-read-deadline-in-the-future")
+		}
 	}
 	c.Defer(func() {
 		for _, h := range hs {
